@@ -581,6 +581,100 @@ def stream_savehist(ctx, reqs, sc):
     return cases
 
 
+# ----------------------------------------------------------------- stream: defaultproject
+#
+# get_default_project(path): the real function on generated directory chains vs Model/DefaultProject.  The
+# per-directory facts handed to the model are probed by the harness itself (os / open), for EVERY parent up to /.
+
+POTENTIAL = ['setup.py', '.git', '.hg', 'requirements.txt', 'MANIFEST.in', 'pyproject.toml']
+
+
+def dir_facts(d):
+    """[load, hasInit, isFile, django, potential] of one directory of the walk, by the harness' own probes"""
+    cfg = os.path.join(d, '.jedi', 'project.json')
+    if os.path.isfile(d):
+        load = 'notadir'
+    elif os.path.isfile(cfg):
+        load = 'loaded'
+    else:
+        load = 'missing'
+    django = False
+    try:
+        with open(os.path.join(d, 'manage.py'), 'rb') as f:
+            django = b'DJANGO_SETTINGS_MODULE' in f.read()
+    except OSError:
+        pass
+    return [load, os.path.exists(os.path.join(d, '__init__.py')), os.path.isfile(d), django,
+            any(os.path.exists(os.path.join(d, n)) for n in POTENTIAL)]
+
+
+def gen_defaultproject_case(rng):
+    depth = rng.randint(1, 5)
+    levels = []
+    for _ in range(depth):
+        lv = {'name': rng.choice(['pa', 'pb', 'pkg', 'src é']),
+              'init': rng.random() < 0.45,
+              'config': rng.random() < 0.15,
+              'manage': rng.choice([None, None, None, 'django', 'plain']),
+              'potential': rng.choice([None, None] + POTENTIAL)}
+        levels.append(lv)
+    return {'levels': levels, 'start': rng.choice(['dir', 'dir', 'file', 'missing-file'])}
+
+
+def build_defaultproject(spec, base):
+    d = base
+    for lv in spec['levels']:
+        d = os.path.join(d, lv['name'])
+        os.makedirs(d, exist_ok=True)
+        if lv['init']:
+            open(os.path.join(d, '__init__.py'), 'w').close()
+        if lv['config']:
+            os.makedirs(os.path.join(d, '.jedi'), exist_ok=True)
+            with open(os.path.join(d, '.jedi', 'project.json'), 'w') as f:
+                json.dump([1, {'path': d}], f)
+        if lv['manage']:
+            with open(os.path.join(d, 'manage.py'), 'w') as f:
+                f.write("import os\nos.environ.setdefault('DJANGO_SETTINGS_MODULE', 'x.settings')\n"
+                        if lv['manage'] == 'django' else 'print(1)\n')
+        if lv['potential']:
+            pth = os.path.join(d, lv['potential'])
+            if lv['potential'].startswith('.'):
+                os.makedirs(pth, exist_ok=True)
+            else:
+                open(pth, 'w').close()
+    if spec['start'] == 'dir':
+        return d
+    start = os.path.join(d, 'mod.py')
+    if spec['start'] == 'file':
+        open(start, 'w').close()
+    return start
+
+
+def stream_defaultproject(ctx, reqs, sc):
+    from jedi.api.project import get_default_project
+    rng = ctx.subrng('defaultproject')
+    cases = []
+    fixed = [{'levels': [{'name': 'pa', 'init': False, 'config': False, 'manage': None, 'potential': '.git'},
+                         {'name': 'pkg', 'init': True, 'config': False, 'manage': None, 'potential': 'setup.py'},
+                         {'name': 'pb', 'init': True, 'config': False, 'manage': None, 'potential': None}],
+              'start': 'file'}]
+    for spec in fixed + [gen_defaultproject_case(rng) for _ in range(ctx.size(150, 3000))]:
+        base = sc.case_dir()
+        start = build_defaultproject(spec, base)
+        chain = [start]
+        while os.path.dirname(chain[-1]) != chain[-1]:
+            chain.append(os.path.dirname(chain[-1]))
+        facts = [dir_facts(d) for d in chain]
+        try:
+            proj = get_default_project(start if rng.random() < 0.5 else Path(start))
+            impl = {'path': str(proj._path), 'django': bool(getattr(proj, '_django', False))}
+        except Exception as e:   # noqa
+            impl = {'raised': '%s at %s' % common.exc_site(e)}
+        reqs.append({'op': 'defaultproject', 'chain': facts})
+        cases.append((('defaultproject', spec, base), {'impl': impl, 'chain': chain, 'start': start}))
+    return cases
+
+
 # ----------------------------------------------------------------- stream: which module wins
 
 def stream_import_effect(ctx, sc):
@@ -711,6 +805,27 @@ def compare(ctx, cases, answers):
                 ctx.tie_broken('correspondence:savehist',
                                short({'spec': spec, 'mode': ans.get('mode'), 'impl-files': impl['files'],
                                       'model-trace': ans.get('trace')}, 1500))
+        elif stream == 'defaultproject':
+            spec, base = key[1], key[2]
+            chain, start, real = impl['chain'], impl['start'], impl['impl']
+            if ans.get('dir') is None:
+                want = start if os.path.isdir(start) else os.path.dirname(start)
+            else:
+                want = chain[ans['dir']]
+            model = {'path': want, 'django': ans.get('kind') == 'django'}
+            ctx.count('defaultproject', json.dumps(spec, sort_keys=True), nontrivial=len(spec['levels']) > 1,
+                      bucket='%s/start=%s' % (ans.get('kind'), spec['start']),
+                      sample={'spec': spec, 'chosen': os.path.relpath(want, base), 'kind': ans.get('kind')})
+            if model != real:
+                ctx.tie_broken('correspondence:defaultproject',
+                               short({'spec': spec, 'impl': unmat_deep(real, base), 'model': unmat_deep(model, base),
+                                      'kind': ans.get('kind')}, 1500))
+                # failing-input search at the level of the documented rule: the project found must be the start
+                # directory or one of its parents
+                if 'path' in real and real['path'] not in chain + [os.path.dirname(start)]:
+                    ctx.fail('oracle-defaultproject', 'the default project is not the start path or one of its parents',
+                             {'spec': spec}, expected='a directory of the walk', observed=unmat_deep(real, base),
+                             how='jedi.api.project.get_default_project(start) on a generated directory chain')
 
 def run(ctx):
     reqs = []
@@ -721,6 +836,7 @@ def run(ctx):
         cases += stream_syspath(ctx, reqs, sc)
         cases += stream_saveload(ctx, reqs, sc)
         cases += stream_savehist(ctx, reqs, sc)
+        cases += stream_defaultproject(ctx, reqs, sc)
         stream_import_effect(ctx, sc)
     if ctx.model_ok:
         answers = common.run_driver_parallel('C20', reqs)
